@@ -111,6 +111,14 @@ def cases(L, tier, seed):
     g = np.zeros((6, 6)); g[0, 1] = 10; g[1, 2] = 5; g[1, 3] = 3; g[1, 4] = 2; g[2, 5] = 5; g[3, 5] = 3; g[4, 5] = 2
     for sc in (1.0, 1e-3, 1e-9):
         graphs.append((g * sc, [0], [5], True))
+    # more pathways than states: a 1-3-3-1 layered flow with 9 routes of distinct weights (conserved)
+    g = np.zeros((8, 8))
+    w1, w2 = [16.0, 4.0, 1.0], [1.0, 2.0, 4.0]
+    for a in range(3):
+        for b_ in range(3):
+            f = w1[a] * w2[b_]
+            g[0, 1 + a] += f; g[1 + a, 4 + b_] += f; g[4 + b_, 7] += f
+    graphs.append((g, [0], [7], True))
     edges4 = [(i, j) for i in range(4) for j in range(4) if i != j]
     combos = [c for k in (3, 4, 5, 6) for c in itertools.combinations(edges4, k)]
     for c in combos[::(97 if tier == 'quick' else 7)]:
@@ -128,6 +136,14 @@ def cases(L, tier, seed):
         for sc in (1.0, 1e-9):
             F, so, si = conserved_flow(rnd, sc)
             graphs.append((F, so, si, True))
+    # the path-removal helpers under the contracts the prover discharges (contracts/tpt_path.py)
+    from contracts import tpt_path as TP
+    rb, sp = TP.RemoveBottleneck(), TP.SubtractPathFlux()
+    for F, so, si, cons in graphs[:(60 if tier == 'quick' else 600)]:
+        for q in simple_paths(F, sorted(so), set(si))[:4]:
+            if len(q) >= 2:
+                yield rb, PA._remove_bottleneck, dict(net_flux=F.copy(), path=np.array(q)), ('remove-bottleneck', F.tolist(), q)
+                yield sp, PA._subtract_path_flux, dict(net_flux=F.copy(), path=np.array(q)), ('subtract-path-flux', F.tolist(), q)
     for F, so, si, cons in graphs:
         yield TopPath(), PA.top_path, dict(sources=list(so), sinks=list(si), net_flux=F.copy()), ('top_path', F.tolist(), so, si)
         for scheme in ('subtract', 'bottleneck'):
